@@ -10,7 +10,8 @@ package server
 //             (Server.Snapshot, fsmSnapshot.Persist into a buffer - possibly
 //             after further applies), and restarts: a new Server over the same
 //             data directory, Server.Restore, replay of the suffix with
-//             recovered=true, finishedRecovery
+//             recovered=true, finishedRecovery (finishRestore when nothing is
+//             replayed, as Server.Start does)
 //   server B  applies the same operations and never restarts (determinism)
 //
 // Every step is an intent; one ndjson line per real call with the projected
@@ -134,6 +135,7 @@ type v06Snap struct {
 type v06State struct {
 	Streams map[string]v06Stream `json:"streams"`
 	Groups  map[string]v12Group  `json:"groups"`
+	Grec    map[string]bool      `json:"grec"` // consumerGroup.recovered (false for a missing group)
 	LastPub uint64               `json:"lastPub"`
 	Disk    map[string][]int64   `json:"disk"`
 	Applied uint64               `json:"applied"`
@@ -181,6 +183,14 @@ func v06NewServer(id, dir string) *Server {
 	cfg.Groups.ConsumerTimeout = time.Hour
 	cfg.Groups.CoordinatorTimeout = time.Hour
 	return New(cfg)
+}
+
+// v06Running marks a never-started server as serving (what startAPIServer does
+// in Server.Start): Restore on a running server ends the recovery itself.
+func v06Running(s *Server) {
+	s.mu.Lock()
+	s.running = true
+	s.mu.Unlock()
 }
 
 // v06Close releases what a never-started server holds: commit logs, timers.
@@ -343,6 +353,21 @@ func v06Groups(s *Server, ids []string) map[string]v12Group {
 	return out
 }
 
+// v06Grec: which groups are still in recovery mode (added by Restore / a replayed
+// CREATE_CONSUMER_GROUP and not started yet: member timers not armed)
+func v06Grec(s *Server, ids []string) map[string]bool {
+	out := map[string]bool{}
+	for _, id := range ids {
+		out[id] = false
+		if g := s.metadata.GetConsumerGroup(id); g != nil {
+			g.mu.RLock()
+			out[id] = g.recovered
+			g.mu.RUnlock()
+		}
+	}
+	return out
+}
+
 const v06Marker = "verif.marker"
 
 func v06Disk(dir string) map[string][]int64 {
@@ -470,7 +495,7 @@ func (r *v06Run) snap() v06Snap {
 }
 
 func (r *v06Run) state(withSnap bool) (v06State, v06Other) {
-	st := v06State{Streams: v06Streams(r.a), Groups: v06Groups(r.a, r.groupIDs),
+	st := v06State{Streams: v06Streams(r.a), Groups: v06Groups(r.a, r.groupIDs), Grec: v06Grec(r.a, r.groupIDs),
 		LastPub: r.a.activity.LastPublishedRaftIndex(), Disk: v06Disk(r.dirA), Applied: r.applied, Mode: r.mode,
 		Nrep: r.nrep, Sref: r.sref()}
 	if withSnap {
@@ -562,6 +587,8 @@ func (r *v06Run) step(id int, step map[string]interface{}) v06Event {
 		if r.snapBytes != nil {
 			r.mode = "boot"
 		} else {
+			// raft.NewRaft has nothing to restore; Server.Start goes on to startAPIServer
+			v06Running(r.a)
 			r.mode = "replay"
 		}
 	case "Restore":
@@ -580,6 +607,8 @@ func (r *v06Run) step(id int, step map[string]interface{}) v06Event {
 			}
 		}()
 		r.a.goroutineWait.Wait()
+		// Restore at start-up runs inside raft.NewRaft, before startAPIServer
+		v06Running(r.a)
 		r.applied = r.snapIdx
 		r.mode = "replay"
 	case "Finish":
@@ -604,6 +633,19 @@ func (r *v06Run) step(id int, step map[string]interface{}) v06Event {
 			skip()
 			break
 		}
+		// the log store holds no command entry behind the snapshot (the driver knows:
+		// nothing to replay): Server.Start calls finishRestore after startAPIServer
+		func() {
+			defer func() {
+				if p := recover(); p != nil {
+					obs.Err = fmt.Sprintf("panic:%v", p)
+				}
+			}()
+			if err := r.a.finishRestore(); err != nil {
+				obs.Err = "other:" + err.Error()
+			}
+		}()
+		r.a.goroutineWait.Wait()
 		r.mode = "live"
 	case "Install":
 		// a live server is handed a snapshot (Raft InstallSnapshot): Server.Restore on
@@ -668,6 +710,8 @@ func TestVerifMetadataFSM(t *testing.T) {
 			groupIDs: vFStrs(b.Cfg, "groups"), mode: "live"}
 		run.a = v06NewServer("A", run.dirA)
 		run.b = v06NewServer("B", run.dirB)
+		v06Running(run.a)
+		v06Running(run.b)
 		st, ot := run.state(true)
 		tw.Emit(v06Event{T: b.ID, A: "Open", Args: map[string]interface{}{}, St: st, Other: ot, Obs: v06Obs{A: "Open"}})
 		failed := false
